@@ -380,3 +380,157 @@ Theorem srun_ref_val fuel t d s : inv bs s ->
 Proof. intros Hs. exact (srun_ref fuel (KVal t d) s Hs). Qed.
 
 End SkipRefine.
+
+(* ------------------------------------------------------------------ (C) protobuf wire *)
+From DG Require Import ProtoMsg.
+
+Section ProtoRefine.
+Variable bs : list Z.
+
+Lemma ptake_some n (l : list Z) : 0 <= n <= plen l ->
+  ProtoMsg.take n l = Some (firstn (Z.to_nat n) l, skipn (Z.to_nat n) l).
+Proof.
+  intros H. unfold ProtoMsg.take.
+  destruct (Z.leb_spec 0 n); [|lia]. destruct (Z.leb_spec n (plen l)); [reflexivity | lia].
+Qed.
+
+Lemma ptake_none n (l : list Z) : n < 0 \/ plen l < n -> ProtoMsg.take n l = None.
+Proof.
+  intros H. unfold ProtoMsg.take.
+  destruct (Z.leb_spec 0 n); [|reflexivity]. destruct (Z.leb_spec n (plen l)); [lia | reflexivity].
+Qed.
+
+Lemma suffix_plen s : inv bs s -> plen (suffix bs s) = zlen bs - cur s.
+Proof. intros Hs. unfold plen. apply suffix_len. assumption. Qed.
+
+(* fixed-width wire types: a bounds test against the remaining input on both sides *)
+Lemma pskip_fixed_ref n s :
+  inv bs s -> 0 <= n ->
+  match skipn_m bs n s with
+  | Ok s' => ProtoMsg.take n (suffix bs s) = Some (firstn (Z.to_nat n) (suffix bs s), suffix bs s') /\ s' = adv n s
+  | Er _ _ => ProtoMsg.take n (suffix bs s) = None
+  | _ => False
+  end.
+Proof.
+  intros Hs Hn. pose proof (suffix_plen s Hs) as Hl. unfold skipn_m.
+  destruct (Z.gtb_spec (cur s + n) (zlen bs)).
+  - apply ptake_none. lia.
+  - rewrite ptake_some by lia. rewrite (suffix_adv bs s s n) by (assumption || reflexivity). auto.
+Qed.
+
+Theorem pskip_ref wt s :
+  inv bs s -> (wt = 0 \/ wt = 1 \/ wt = 2 \/ wt = 5) ->
+  match pskip bs false wt s with
+  | Ok s' => exists v, wdec_val wt (suffix bs s) = Some (v, suffix bs s')
+  | Er _ _ => wdec_val wt (suffix bs s) = None
+  | _ => False
+  end.
+Proof.
+  intros Hs Hwt. pose proof (suffix_plen s Hs) as Hl.
+  pose proof (cvarint_post bs s Hs) as Hv. change (skipn (Z.to_nat (cur s)) bs) with (suffix bs s) in Hv.
+  destruct Hwt as [->|[->|[->| ->]]]; unfold pskip, wdec_val, rvarint; cbn [Z.eqb Pos.eqb].
+  - (* varint *)
+    destruct (cvarint bs s) as [v n s1|c s1|j]; unfold vpost, same in Hv; [| |contradiction].
+    + destruct Hv as ((Hc1 & _ & _ & Hi1) & Hn & Hb & Hr). rewrite Hr.
+      destruct (Z.gtb_spec (cur s1 + n) (zlen bs)); [lia|].
+      destruct (Z.ltb_spec n 0); [lia|].
+      eexists. rewrite (suffix_adv bs s s1 n) by (assumption || lia). reflexivity.
+    + destruct Hv as (_ & Hc & Hr). destruct (varint_dec (suffix bs s)) as [v n]. cbn [snd] in Hr. subst n.
+      destruct (Z.ltb_spec c 0); [reflexivity | lia].
+  - (* fixed64 *)
+    pose proof (pskip_fixed_ref 8 s Hs ltac:(lia)) as H.
+    destruct (skipn_m bs 8 s); try assumption.
+    + destruct H as (H & _). rewrite H. eexists. reflexivity.
+    + rewrite H. reflexivity.
+  - (* bytes *)
+    destruct (cvarint bs s) as [v n s1|c s1|j]; unfold vpost, same in Hv; [| |contradiction].
+    + destruct Hv as ((Hc1 & _ & _ & Hi1) & Hn & Hb & Hr). rewrite Hr.
+      destruct (Z.ltb_spec n 0); [lia|].
+      assert (Hl2 : plen (skipn (Z.to_nat n) (suffix bs s)) = zlen bs - cur s - n)
+        by (unfold plen in *; rewrite skipn_length; lia).
+      destruct (Z.ltb_spec v 0); cbn [orb].
+      { rewrite ptake_none by lia. reflexivity. }
+      destruct (Z.gtb_spec v (zlen bs - cur s1 - n)).
+      { rewrite ptake_none by lia. reflexivity. }
+      rewrite ptake_some by lia. eexists.
+      rewrite (suffix_adv bs s s1 (n + v)) by (assumption || lia).
+      rewrite skipn_skipn'. do 3 f_equal. lia.
+    + destruct Hv as (_ & Hc & Hr). destruct (varint_dec (suffix bs s)) as [v n]. cbn [snd] in Hr. subst n.
+      destruct (Z.ltb_spec c 0); [reflexivity | lia].
+  - (* fixed32 *)
+    pose proof (pskip_fixed_ref 4 s Hs ltac:(lia)) as H.
+    destruct (skipn_m bs 4 s); try assumption.
+    + destruct H as (H & _). rewrite H. eexists. reflexivity.
+    + rewrite H. reflexivity.
+Qed.
+
+(* remark: group / reserved wire types are accepted by the code (nothing consumed) and rejected by wdec_val *)
+Lemma pskip_other_wt wt s coded :
+  wt <> 0 -> wt <> 1 -> wt <> 2 -> wt <> 5 ->
+  pskip bs coded wt s = Ok s /\ forall l, wdec_val wt l = None.
+Proof.
+  intros H0 H1 H2 H5. unfold pskip, wdec_val.
+  destruct (Z.eqb_spec wt 0); [contradiction|]. destruct (Z.eqb_spec wt 5); [contradiction|].
+  destruct (Z.eqb_spec wt 1); [contradiction|]. destruct (Z.eqb_spec wt 2); [contradiction|]. auto.
+Qed.
+
+Lemma wdec_val_wt wt l x : wdec_val wt l = Some x -> wt = 0 \/ wt = 1 \/ wt = 2 \/ wt = 5.
+Proof.
+  unfold wdec_val. intros H.
+  destruct (Z.eqb_spec wt 0); [auto|]. destruct (Z.eqb_spec wt 1); [auto|].
+  destruct (Z.eqb_spec wt 5); [auto|]. destruct (Z.eqb_spec wt 2); [auto|]. discriminate.
+Qed.
+
+(* every buffer the wire decoder accepts is walked to its end by the unknown-field loop *)
+Lemma pfields_ref : forall f lf s w,
+  inv bs s -> wdec_loop lf (suffix bs s) = Some w ->
+  match pfields bs false f s with
+  | Ok s' => cur s' = zlen bs
+  | OutOfFuel => True
+  | _ => False
+  end.
+Proof.
+  induction f as [|f IH]; intros lf s w Hs Hw; cbn [pfields]; [exact I|].
+  pose proof (suffix_len bs s Hs) as Hl.
+  destruct (Z.geb_spec (cur s) (zlen bs)) as [Hge|Hlt]; [destruct Hs as [Hs _]; lia|].
+  destruct (suffix bs s) as [|x r] eqn:El; [cbn [length] in Hl; lia|].
+  destruct lf as [|lf]; cbn [wdec_loop] in Hw; [discriminate|].
+  rewrite <- El in Hw.
+  destruct (wdec_field (suffix bs s)) as [[fl r']|] eqn:Ef; [|discriminate].
+  destruct (wdec_loop lf r') as [w'|] eqn:Ew; [|discriminate].
+  unfold wdec_field in Ef. unfold ptag, rvarint.
+  pose proof (cvarint_post bs s Hs) as Hv. change (skipn (Z.to_nat (cur s)) bs) with (suffix bs s) in Hv.
+  destruct (cvarint bs s) as [v n s1|c s1|j]; unfold vpost, same in Hv; [| |contradiction].
+  - destruct Hv as ((Hc1 & _ & _ & Hi1) & Hn & Hb & Hr). rewrite Hr in Ef.
+    destruct (Z.ltb_spec n 0); [lia|].
+    destruct (Z.gtb_spec (cur s1 + n) (zlen bs)); [lia|].
+    unfold MAX_FIELD_NUMBER in Ef.
+    destruct (Z.ltb_spec (v / 8) 1); cbn [orb] in Ef; [discriminate|].
+    destruct (Z.gtb_spec (v / 8) 536870911); [discriminate|].
+    destruct (Z.gtb_spec (v / 8) 2147483647); [lia|].
+    destruct (Z.ltb_spec (v / 8) 1); [lia|].
+    assert (Hi2 : inv bs (adv n s1)) by fin.
+    rewrite <- (suffix_adv bs s s1 n) in Ef by (assumption || lia).
+    destruct (wdec_val (v mod 8) (suffix bs (adv n s1))) as [[wv r'']|] eqn:Eval; [|discriminate].
+    inversion Ef; subst fl r''. clear Ef.
+    pose proof (pskip_ref (v mod 8) (adv n s1) Hi2 (wdec_val_wt _ _ _ Eval)) as Hp.
+    pose proof (pskip_post bs false (v mod 8) (adv n s1) Hi2) as Hpp.
+    destruct (pskip bs false (v mod 8) (adv n s1)) as [s2|? ?|?|?|]; cbn [seq_out]; try contradiction.
+    + destruct Hp as (wv' & Hp). rewrite Eval in Hp. inversion Hp; subst.
+      unfold ppost in Hpp. apply (IH lf s2 w'); tauto.
+    + rewrite Eval in Hp. discriminate.
+  - destruct Hv as (_ & Hc & Hr). destruct (varint_dec (suffix bs s)) as [v n]. cbn [snd] in Hr. subst n.
+    destruct (Z.ltb_spec c 0); [discriminate | lia].
+Qed.
+
+Theorem wdec_accepts_implies_pfields w :
+  wdec bs = Some w -> exists s, pfields_m false bs = Ok s /\ cur s = zlen bs.
+Proof.
+  intros Hw. unfold wdec in Hw.
+  pose proof (pfields_ref (fuel_for bs) (length bs) st0 w (inv_st0 bs) Hw) as H.
+  pose proof (pfields_progress bs false) as Hp. unfold pfields_m in *.
+  destruct (pfields bs false (fuel_for bs) st0) as [s| | | |]; try contradiction.
+  exists s. auto.
+Qed.
+
+End ProtoRefine.
